@@ -142,7 +142,7 @@ func checkPackage(u *gengotypes.Universe, P gengotypes.Package, r *proto.PkgRepo
 				m := named.Method(i)
 				wantAll[m] = true
 				if sig, ok := m.Type().(*types.Signature); ok && sig.Recv() != nil {
-					if _, isPtr := sig.Recv().Type().(*types.Pointer); !isPtr {
+					if _, isPtr := types.Unalias(sig.Recv().Type()).(*types.Pointer); !isPtr { // (type P = *T; func (P) M() has a pointer receiver)
 						wantVal[m] = true
 					}
 				}
